@@ -197,6 +197,7 @@ package eio
 //@     update tclosed = tclosed + 1
 //@   ensures userclosed == 1 [C06.eio.once]
 //@   ensures unregistered == 1 [C06.eio.store]
+//@   ensures reason != ReasonTransportClose && reason != ReasonTransportError && old(s.transport) != nil ==> tclosed == 1 [C06.eio.close.ends.the.transport]
 
 // A close reported by a transport ends the session only if that transport is still the socket's current one
 // and the session has not ended already (a superseded transport closing after an upgrade is ignored).
@@ -313,6 +314,7 @@ package eio
 //@     update discarded = discarded + 1
 //@   callsite ClientTransport.Send skip
 //@     requires wheld(s.transportMu) && swapped == 1 && recv == t && sent == 0 && len(arg0) == 1 && arg0[0] != nil && arg0[0].Type == parser.PacketTypeUpgrade [C07.cli.upgrade.packet.first]
+//@     requires wheld(s.transportMu) [C14.cli.nothing.on.the.new.transport.before.the.upgrade.packet]
 //@     update sent = sent + 1
 //@   callsite ClientTransport.Name skip
 //@   callsite upgradeDone go
@@ -566,3 +568,22 @@ package eio
 //@     requires cap(value) >= 1 [C14.cli.ping.mailbox.buffered]
 //@     update mailbox = mailbox + 1
 //@   ensures mailbox == 1 [C14.cli.ping.mailbox.made.once]
+
+// C14 (client): reporting a dead peer never waits for traffic in flight. Senders hold transportMu as READERS for the
+// whole of a (possibly black-holed) request; the close path therefore takes it as a reader too - as a writer it
+// would report the ping timeout only when the stuck request gives up, long after pingInterval + pingTimeout.
+//@ func (*clientSocket).close$1
+//@   opt safety off
+//@   requires s != nil
+//@   ghost tclosed int = 0
+//@   ghost userclosed int = 0
+//@   callsite Lock
+//@     requires false [C14.cli.close.never.waits.for.senders]
+//@   callsite ClientTransport.Close
+//@     requires reason != ReasonTransportClose && reason != ReasonTransportError [C06.eio.cli.transport.notwice]
+//@     update tclosed = tclosed + 1
+//@   callsite OnClose
+//@     requires arg0 == reason && userclosed == 0 [C06.eio.cli.reason]
+//@     update userclosed = userclosed + 1
+//@   ensures userclosed == 1 [C06.eio.cli.once]
+//@   ensures reason != ReasonTransportClose && reason != ReasonTransportError && old(s.transport) != nil ==> tclosed == 1 [C06.eio.cli.close.ends.the.transport]
